@@ -169,6 +169,10 @@ class FutFlow:
                     break
             if hook is not None:
                 dest |= {"R:" + hook, "P:" + hook, "H:" + hook}
+                # the call itself runs the callback's synchronous prefix (a hand-written `fn hook(..) -> impl Future` may
+                # do real work, and panic, before it returns its future): whoever polls *this* body runs user code
+                # uncontained unless this body is itself polled under catch_unwind
+                ch |= self.add(self.body_tags[f.id], {"P:" + hook})
                 if not any(x[0].fn.id == f.id and x[0].bb == site.bb for x in self.seed_calls):
                     self.seed_calls.append((c, hook))
             elif any(n in self.sink_ids for n in names):
